@@ -30,7 +30,10 @@ COMPONENTS = {
              "pywt", "pkg_resources resource lookup", "OS threads as clients"],
     "stub": ["byte stream behind coeffs.resource_stream (FaultyStream serving the real "
              "file's bytes)", "which client thread runs next (seeded scheduler)",
-             "allocation failures / cancellation (exceptions raised from the line tracer)"],
+             "allocation failures / cancellation (exceptions raised from the line tracer at "
+             "statement boundaries, and from the c_call profile event inside torch/numpy calls)",
+             "threading / concurrent.futures / queue / time as the library sees them "
+             "(cooperative stand-ins; the pinned tree uses none of them)"],
 }
 
 
